@@ -365,23 +365,29 @@ theorem supported_comb (c : ClassD) (hs : supported c = true) (hq : c.isSeq = fa
 
 /-! ## power-up -/
 
-/-- the emitted `initial` block establishes the state part of `PowerUp` on any store declared as the module declares it -/
+/-- the emitted `initial` block repeats EVERY constructor assignment in order; executing it on any store declared as the module
+    declares it leaves in every state integer the constant of the LAST assignment - the value the constructed Python object
+    holds (`c.state`, tied by `okClass`) - and establishes the state part of `PowerUp`.  No distinctness of the assigned names. -/
 theorem initial_block_sound {σ : Type} {rd : σ → V.Rd} {wr : σ → V.Tgt → V.BV → σ} (L : Laws rd wr) (c : ClassD) (st : σ)
-    (hdist : allDistinct (c.state.map (·.1)) = true)
-    (hst : ∀ p, p ∈ c.state → inDom p.2 = true ∧ isPort c p.1 = false)
+    (hlast : ∀ n v, lookup c.state n = some v → lastVal c.inits n = some v)
+    (hst : ∀ p, p ∈ c.inits → inDom p.2 = true ∧ isPort c p.1 = false)
     (ht : ∀ n, (rd st).info n = typing c n) :
     (∀ n v, lookup c.state n = some v →
-       (rd (V.exec rd wr none (seqOf (initStmts c.state)) ⟨st, []⟩).st).val n = ⟨32, v.toNat, true⟩) ∧
-    (∀ k, k ∉ c.state.map (·.1) → (rd (V.exec rd wr none (seqOf (initStmts c.state)) ⟨st, []⟩).st).val k = (rd st).val k) ∧
-    (∀ n, (rd (V.exec rd wr none (seqOf (initStmts c.state)) ⟨st, []⟩).st).info n = typing c n) := by
+       (rd (V.exec rd wr none (seqOf (initStmts c.inits)) ⟨st, []⟩).st).val n = ⟨32, v.toNat, true⟩) ∧
+    (∀ k, lastVal c.inits k = none → (rd (V.exec rd wr none (seqOf (initStmts c.inits)) ⟨st, []⟩).st).val k = (rd st).val k) ∧
+    (∀ n, (rd (V.exec rd wr none (seqOf (initStmts c.inits)) ⟨st, []⟩).st).info n = typing c n) := by
   rw [exec_seqOf]
-  obtain ⟨h1, h2, h3, _⟩ := init_list_sound L c c.state ⟨st, []⟩ hdist hst ht
-  exact ⟨fun n v hl => h1 (n, v) (lookup_mem c.state n v hl), h2, h3⟩
+  obtain ⟨h1, h2, h3, _⟩ := init_list_last L c c.inits ⟨st, []⟩ hst ht
+  exact ⟨fun n v hl => h1 n v (hlast n v hl), h2, h3⟩
+
+/-- a constructor that assigns `count` twice: the initial block is `count=0; count=5;` and leaves 5 -/
+example : lastVal [("count", 0), ("lim", 3), ("count", 5)] "count" = some 5 ∧
+          lastVal [("count", 0), ("lim", 3), ("count", 5)] "lim" = some 3 := by decide
 
 /-- the `initial` and `always` items of the model module are the ones the power-up / cycle theorems talk about -/
 theorem trModule_items (c : ClassD) (hq : c.isSeq = true) :
     ∃ decls, (trModule c).items =
-      decls ++ [V.Item.initial (seqOf (initStmts c.state)), V.Item.always (.pos c.clk) (trS c c.body)] := by
+      decls ++ [V.Item.initial (seqOf (initStmts c.inits)), V.Item.always (.pos c.clk) (trS c c.body)] := by
   refine ⟨(c.state.map (·.1) ++ newVars c).map fun n => V.Item.int n none, ?_⟩
   simp only [trModule, hq, if_true]
   rfl
@@ -422,7 +428,7 @@ theorem refuse_complete (c : ClassD) : model c = .error .unsupported ↔ support
 /-! ## non-vacuity: a concrete class, environment and store inside all hypotheses -/
 
 def c0 : ClassD :=
-  { name := "K", ports := [⟨"a", "a", 8, false⟩, ⟨"b", "b", 8, false⟩, ⟨"q", "q", 8, true⟩], state := [("s", 3)], consts := [("k", 7)],
+  { name := "K", ports := [⟨"a", "a", 8, false⟩, ⟨"b", "b", 8, false⟩, ⟨"q", "q", 8, true⟩], state := [("s", 3)], inits := [("s", 0), ("s", 3)], consts := [("k", 7)],
     params := [], isSeq := true, clk := "clk",
     body := .seq (.setAttr "s" (.bin .band (.bin .add (.attr "s") (.bin .add (.get "a") (.attr "k"))) (.const 255)))
                  (.ife (.cmp .gt (.attr "s") (.get "b")) (.prep "q" (.attr "s")) (.prep "q" (.bin .shr (.attr "s") (.const 1)))) }
@@ -605,7 +611,7 @@ example : noOutRead c0 c0.body := by
 
 /-! non-vacuity of the combinational clause -/
 def cC : ClassD :=
-  { name := "C", ports := [⟨"a", "a", 8, false⟩, ⟨"b", "b", 8, false⟩, ⟨"q", "q", 8, true⟩], state := [], consts := [],
+  { name := "C", ports := [⟨"a", "a", 8, false⟩, ⟨"b", "b", 8, false⟩, ⟨"q", "q", 8, true⟩], state := [], inits := [], consts := [],
     params := [], isSeq := false, clk := "clk",
     body := .seq (.setLoc "t" (.bin .add (.get "a") (.const 1)))
                  (.ife (.cmp .gt (.loc "t") (.get "b")) (.put "q" (.loc "t")) (.put "q" (.get "b"))) }
